@@ -69,7 +69,10 @@ class FieldPlace:
     def set(self, g, v):
         if self.obj.frozen:
             raise Unsupported("assignment to a field of a merged (snapshot) struct")
-        self.obj.f[self.name] = merge(g, v, self.obj.f[self.name])
+        new = merge(g, v, self.obj.f[self.name])
+        if isinstance(new, V.SetV) and new is not v:
+            V.unfreeze(new)        # a freshly merged PrefixTree is owned by the field alone (Rust moves the value in)
+        self.obj.f[self.name] = new
 
 
 class SlotPlace:
@@ -753,7 +756,14 @@ class Interp:
             if ga != F:
                 av = self.eval(arm["body"], sc, frame, ga, hint)
                 take = c.and2(nomatch, m)
-                res = av if first else merge(take, av, res)
+                # an arm that diverges (`None => { continue; }`) evaluates to `()`: it contributes no value to a
+                # match whose other arms yield one (its path guard is dead from here on)
+                if not first and av == () and res != () and res is not UNDEF:
+                    pass
+                elif not first and res == () and av != ():
+                    res = av
+                else:
+                    res = av if first else merge(take, av, res)
                 first = False
             nomatch = c.and2(nomatch, -m)
             if nomatch == F:
@@ -1039,6 +1049,33 @@ class Interp:
             return OptV(T, self.deref(args[0]))     # Result modelled as Option: values are bounded by the universe
         if tyname == "Unification" and name == "new" and ("Unification", "new") in self.p.methods:
             return self.call_fn(self.p.methods[("Unification", "new")], g, [])
+        if tyname == "mem" and name in ("take", "replace"):
+            # std::mem::take(&mut place) / std::mem::replace(&mut place, v): the old value moves out
+            tgt = args[0]
+            if isinstance(tgt, LazyV):
+                tgt = self.force(tgt)
+            if isinstance(tgt, RefV):
+                old = tgt.place.get()
+            elif V.is_object(tgt):
+                old = tgt
+            else:
+                raise Unsupported("mem::%s through %r" % (name, tgt))
+            old = self.deref(old)
+            moved = V.unfreeze(V.clone(old)) if V.is_object(old) else old
+            if name == "replace":
+                new = self.deref(args[1])
+            elif isinstance(old, VecL):
+                new = VecL()
+            elif isinstance(old, SetV):
+                new = SetV(old.arity)
+            elif is_int(old):
+                new = 0
+            elif isinstance(old, BoolV):
+                new = mkbool(F)
+            else:
+                raise Unsupported("mem::take of %r" % (old,))
+            self.assign_through(tgt, g, new)
+            return moved
         key = tyname + "::" + name
         if key in self.natives:
             return self.natives[key](self, g, args)
